@@ -324,9 +324,14 @@ def parse_db(path):
                 continue
             if cur is not None and cur.get("eq") is None and (toks[0].startswith("-")):
                 continue
-            # a phase name
+            # a phase name.  Phase names are case-INSENSITIVE in PHREEQC and a later definition replaces an earlier
+            # one (llnl.dat: "Hf(g)" - hafnium - silently replaces "HF(g)" - hydrogen fluoride)
             cur = new_k()
             cur.update({"name": toks[0], "eq": None})
+            for old in [k for k in phases if k.lower() == toks[0].lower()]:
+                if old != toks[0] and phases[old].get("eq") is not None:
+                    problems.append("phase %s is replaced by the later phase %s (names are case-insensitive)" % (old, toks[0]))
+                del phases[old]
             phases[toks[0]] = cur
             continue
         if block in ("NAMED_EXPRESSIONS", "NAMED_LOG_K", "NAMED_ANALYTICAL_EXPRESSION", "NAMED_ANALYTICAL_EXPRESSIONS"):
